@@ -88,6 +88,10 @@ func verifC04(mode, origin, space, nbytes int, sendfile bool, preempt int) {
 		f.peerSend([]byte{1})
 	case 2:
 		doWrite(conn)
+	case 3:
+		// from another goroutine while the poller is busy with inbound data
+		f.peerSend([]byte{1})
+		doWrite(conn)
 	}
 	verifJoin()
 	verifAssertD(f.sendSpace == space, "peer-has-drained-everything-at-quiescence", "")
@@ -122,6 +126,19 @@ func verifHarness_C04_write_in_ondata() {
 
 func verifHarness_C04_write_from_other_goroutine() {
 	verifC04(verifChoose("mode", 3), 2, 1+verifChoose("space", 2), 4, false, 2)
+	verifAssert(false, "witness")
+}
+
+func verifHarness_C04_write_while_poller_reads() {
+	verifC04(verifChoose("mode", 3), 3, 1+verifChoose("space", 2), 4, false, 2)
+	verifAssert(false, "witness")
+}
+
+// the same with every unprotected access to the connection's racy fields as a
+// scheduling point (ResetPollerEvent, modWrite/resetRead callers, poller loop)
+func verifHarness_C04_write_while_poller_reads_racy_fields_T() {
+	verifRacyFields("closed,isWAdded,writeList,onConnected,readEvents")
+	verifC04(verifChoose("mode", 3), 3, 1, 3, false, 2)
 	verifAssert(false, "witness")
 }
 
